@@ -78,9 +78,9 @@ theorem contract_LineEnergy (hm : m ≠ Hdr.LB_LINE) : Contract (Gen.LineEnergy 
   split_ifs <;> try simp
   · unfold wmean; simp only []; split_ifs <;> simp
   · unfold wmean; simp only []; split_ifs <;> simp
-  · unfold composed; simp only []; split_ifs <;> simp
+  · unfold composed wmean; simp only []; split_ifs <;> simp
   · split
-    · unfold composed; simp only []; split_ifs <;> simp
+    · unfold composed wmean; simp only []; split_ifs <;> simp
     · exact C10.singleEnergy_ne_any T Z m
 
 section sites
